@@ -275,7 +275,8 @@ def _c(x):
 
 def _rep_index(w):
     try:
-        r = index_case(w["kind"], w["form"], w["bonds"], w["box"], w["i"], w["j"], w["st"], w["use_i"], w["use_j"])
+        t = getattr(np, w["npt"]) if w.get("npt") else (lambda x: x)
+        r = index_case(w["kind"], w["form"], w["bonds"], w["box"], t(w["i"]), t(w["j"]), w["st"], w["use_i"], w["use_j"])
         return r is None, str(r)
     except Exception as e:
         import traceback
@@ -302,6 +303,21 @@ def ob_index(tier):
                         return r is None
                     cases.append(Case(f"{kind} index form {form} bonds={with_bonds} step={st}", base, run,
                                       dict(kind=kind, form=form, bonds=with_bonds, box=True, i=i, j=j, st=st, use_i=ui, use_j=uj), _rep_index))
+    # the integer forms again with numpy integer scalars (what np.where / np.argmax hand out) instead of Python ints
+    for kind, forms in (("array", (0,)), ("stack", (0, 2, 3, 4, 6))):
+        for form in forms:
+            for npt in ("int64", "int32", "uint8"):
+                i, j = z3.Int("i"), z3.Int("j")
+                lo = 0 if npt == "uint8" else -5
+                base = [i >= lo, i <= 5, j >= lo, j <= 5]
+
+                def run(kind=kind, form=form, npt=npt, i=i, j=j, lo=lo):
+                    ex = cur()
+                    t = getattr(np, npt)
+                    r = index_case(kind, form, True, True, t(ex.choose(i, range(lo, 6))), t(ex.choose(j, range(lo, 6))), None, True, True)
+                    return r is None
+                cases.append(Case(f"{kind} index form {form} with numpy {npt} scalars", base, run,
+                                  dict(kind=kind, form=form, bonds=True, box=True, i=i, j=j, st=None, use_i=True, use_j=True, npt=npt), _rep_index))
     return cases
 
 
